@@ -260,6 +260,42 @@ func c14DiffersFrom(id ssa.Value, facts []flow.Fact, depth int) map[string]bool 
 type walkSite struct {
 	call *ssa.Call
 	once bool // one machine at most, once at most, per execution of the call
+	// each: the call is of a helper that is handed the walking function (a method value, a function literal) and calls
+	// it at this one place of its own (`eachMid(mids, run.present)` with `f(mids[i])` in a loop of eachMid); once then
+	// says that one call of the function handed over walks one machine at most, once at most
+	each *ssa.Call
+}
+
+// c14FuncValue: the function a function-valued argument stands for: a method value (bound method closure), a function
+// literal, or a named function; nil for anything else.
+func c14FuncValue(v ssa.Value) *ssa.Function {
+	switch x := v.(type) {
+	case *ssa.Function:
+		return x
+	case *ssa.MakeClosure:
+		w, ok := x.Fn.(*ssa.Function)
+		if !ok {
+			return nil
+		}
+		if w.Synthetic == "" {
+			return w
+		}
+		if !strings.HasSuffix(w.Name(), "$bound") || len(x.Bindings) != 1 {
+			return nil
+		}
+		var m *ssa.Function
+		ssau.Instrs(w, func(in ssa.Instruction) {
+			if ci, ok := in.(ssa.CallInstruction); ok {
+				if sc := ci.Common().StaticCallee(); sc != nil && sc.Name()+"$bound" == w.Name() {
+					m = sc
+				}
+			}
+		})
+		return m
+	case *ssa.ChangeType:
+		return c14FuncValue(x.X)
+	}
+	return nil
 }
 
 // c14WalkSites lists the places of f where a machine is walked: the calls of RunMachine and the calls of helpers of
@@ -279,11 +315,42 @@ func c14WalkSites(f, rm *ssa.Function, depth int) []walkSite {
 		switch {
 		case h == nil:
 		case h == rm:
-			out = append(out, walkSite{cl, true})
+			out = append(out, walkSite{call: cl, once: true})
 		case h.Blocks != nil && h != f && depth < 3 && prog.PkgOf(h) == prog.PkgOf(f):
 			inner := c14WalkSites(h, rm, depth+1)
 			if len(inner) > 0 {
-				out = append(out, walkSite{cl, len(inner) == 1 && inner[0].once && !flow.InCycle(inner[0].call.Block())})
+				out = append(out, walkSite{call: cl, once: len(inner) == 1 && inner[0].once && inner[0].each == nil && !flow.InCycle(inner[0].call.Block())})
+				return
+			}
+			// the helper does not walk by itself: it calls a function it is handed, and that function walks
+			for ai, a := range cl.Common().Args {
+				tgt := c14FuncValue(a)
+				if tgt == nil || tgt.Blocks == nil || prog.PkgOf(tgt) != prog.PkgOf(f) || ai >= len(h.Params) {
+					continue
+				}
+				once := tgt == rm
+				if !once {
+					tw := c14WalkSites(tgt, rm, depth+1)
+					if len(tw) == 0 {
+						continue
+					}
+					once = len(tw) == 1 && tw[0].once && tw[0].each == nil && !flow.InCycle(tw[0].call.Block())
+				}
+				var pcs []*ssa.Call
+				onlyCalled := true
+				for _, u := range ssau.Referrers(h.Params[ai]) {
+					if pc, isC := u.(*ssa.Call); isC && pc.Common().Value == ssa.Value(h.Params[ai]) {
+						pcs = append(pcs, pc)
+					} else if _, isDbg := u.(*ssa.DebugRef); !isDbg {
+						onlyCalled = false
+					}
+				}
+				switch {
+				case len(pcs) == 1 && onlyCalled:
+					out = append(out, walkSite{call: cl, once: once, each: pcs[0]})
+				default:
+					out = append(out, walkSite{call: cl}) // walks, one cannot say how often
+				}
 			}
 		}
 	})
@@ -415,7 +482,8 @@ func C14(c *Ctx) {
 		if !ok || len(ret.Results) != 2 || ssau.IsNilConst(ret.Results[0]) {
 			continue
 		}
-		for _, v := range deepDefs(ret.Results[0], scope) {
+		// (a list kept in a field of a local record that helpers fill through a pointer is looked up in what they store)
+		for _, v := range resolveThroughLocals(ret.Results[0], scope) {
 			if ssau.IsNilConst(v) || seenLeaf[v] {
 				continue
 			}
@@ -572,6 +640,9 @@ func C14(c *Ctx) {
 			}
 			for _, b := range h.Blocks {
 				if ret, isRet := b.Instrs[len(b.Instrs)-1].(*ssa.Return); isRet && idx < len(ret.Results) && ssau.IsNilConst(ret.Results[idx]) {
+					if c14NilWithError(cl, ret) {
+						continue // no queue comes back together with an error, on which the caller stops working the queue
+					}
 					return true
 				}
 			}
@@ -677,12 +748,27 @@ func C14(c *Ctx) {
 	if okWalk {
 		walkCall := walks[0].call
 		L := flow.InnermostLoop(flow.Loops(runMs), walkCall.Block())
+		var opScope []*ssa.Function
+		if each := walks[0].each; each != nil {
+			// the loop over the ids is in the helper that is handed the walking function: the helper is called once,
+			// and its loop runs over what RunMachines hands it
+			if L != nil {
+				L = nil
+			} else {
+				L = flow.InnermostLoop(flow.Loops(each.Parent()), each.Block())
+				opScope = []*ssa.Function{runMs, each.Parent()}
+			}
+		}
 		okWalk = L != nil
 		if L != nil {
 			op := loopOperand(L)
 			fromTo := false
 			if op != nil {
-				for _, d := range phiDefs(op, nil, map[ssa.Value]bool{}) {
+				defs := phiDefs(op, nil, map[ssa.Value]bool{})
+				if opScope != nil {
+					defs = deepDefs(op, opScope)
+				}
+				for _, d := range defs {
 					if ex, isEx := d.(*ssa.Extract); isEx {
 						if cl, isC := ex.Tuple.(*ssa.Call); isC && cl.Common().StaticCallee() == toM {
 							fromTo = true
@@ -823,4 +909,68 @@ func C14(c *Ctx) {
 		}
 		c.R.Check(okFan, "C14-R4", "mcrew Process: every emitted message is re-injected by its own goroutine", c.P.Pos(proc.Pos()), "go s.Process(ctx, msg, ctl) unconditionally in the loop over every stride's Emitted", why)
 	}
+}
+
+// c14NilWithError: the return ret of the helper called at cl hands back, as another result, a value that is known not
+// to be nil there (`return nil, nil, err` under err != nil), and the caller, on finding that result not nil, does not
+// come back to the call (it leaves the loop the call is in).
+func c14NilWithError(cl *ssa.Call, ret *ssa.Return) bool {
+	for j, r := range ret.Results {
+		nonNil := false
+		for _, f := range flow.FactsAt(ret.Block()) {
+			bo, ok := f.Cond.(*ssa.BinOp)
+			if !ok || bo.X != r || !ssau.IsNilConst(bo.Y) {
+				continue
+			}
+			if (bo.Op == token.NEQ && f.True) || (bo.Op == token.EQL && !f.True) {
+				nonNil = true
+			}
+		}
+		if !nonNil {
+			continue
+		}
+		var ex *ssa.Extract
+		for _, u := range ssau.Referrers(cl) {
+			if e, ok := u.(*ssa.Extract); ok && e.Index == j {
+				ex = e
+			}
+		}
+		if ex == nil {
+			continue
+		}
+		// the ways on from the call, in this activation, with ex != nil (ex keeps its value until the call is made again)
+		seen := map[*ssa.BasicBlock]bool{}
+		stack := []*ssa.BasicBlock{}
+		next := func(b *ssa.BasicBlock) {
+			succs := b.Succs
+			if iff, ok := b.Instrs[len(b.Instrs)-1].(*ssa.If); ok {
+				if bo, isB := iff.Cond.(*ssa.BinOp); isB && bo.X == ssa.Value(ex) && ssau.IsNilConst(bo.Y) {
+					switch bo.Op {
+					case token.NEQ:
+						succs = b.Succs[:1]
+					case token.EQL:
+						succs = b.Succs[1:2]
+					}
+				}
+			}
+			for _, s := range succs {
+				if !seen[s] {
+					seen[s] = true
+					stack = append(stack, s)
+				}
+			}
+		}
+		next(cl.Block())
+		for len(stack) > 0 {
+			b := stack[len(stack)-1]
+			stack = stack[:len(stack)-1]
+			if b != cl.Block() {
+				next(b)
+			}
+		}
+		if !seen[cl.Block()] {
+			return true
+		}
+	}
+	return false
 }
